@@ -1,3 +1,5 @@
 import Audit.Tool
 import Adb.Props.C16
+import Adb.Lemmas.Labels
 #audit_module Adb.Props.C16
+#audit_module Adb.Lemmas.Labels
